@@ -31,8 +31,8 @@ Is(e) == l <= Len(Trace) /\ Trace[l].ev = e
 Adv == l' = l + 1
 Do(V, E) == E /\ viol' = viol \cup V
 
-BufStream(b) == [id |-> b.id, w |-> Limbs(b)]
-SeedStream(s) == [id |-> "seed:" \o s.d, w |-> <<>>]
+BufStream(b) == [id |-> b.id, src |-> "buf", w |-> Limbs(b)]
+SeedStream(s) == [id |-> "seed:" \o s.d, src |-> "seed", w |-> <<>>]
 Err(e) == [class |-> e.class, site |-> e.site, msg |-> e.msg]
 
 Verdicts == IF Property = "ALL" THEN UNION { VerdictOf[p] : p \in DOMAIN VerdictOf } ELSE VerdictOf[Property]
@@ -79,9 +79,10 @@ RunBegin ==
   /\ runinfo' = Ev /\ runlog' = <<>> /\ ffBuf' = NoStream /\ topInv' = 0
   /\ UNCHANGED <<scen, prev>>
 
+\* (the base seed is logged here: without -rapid.seed it is random and not known from the flags)
 FFList ==
   /\ Is("h.failfiles") /\ Adv
-  /\ Do(V_FFList(Ev.files), E_FFList(Ev.files))
+  /\ Do(V_FFList(Ev.files), E_FFList(Ev.files, Ev.baseSeed.l))
   /\ UNCHANGED <<scen, ffBuf, topInv, runlog, prev, runinfo>>
 
 FFLoad ==
@@ -163,7 +164,7 @@ Other ==
 OnceEnd ==
   /\ Is("h.once.end") /\ Adv
   /\ Do(V_Ret(Err(Ev.err)), E_Ret(Err(Ev.err)))
-  /\ runlog' = Append(runlog, <<cur.kind, cur.stream.id, cur.obs.draws, Ev.err.class, Expect(cur.obs).site>>)
+  /\ runlog' = IF scen.nruns > 1 /\ cur.kind \in {"gen", "ff1", "ff2"} THEN Append(runlog, <<cur.kind, cur.stream.id, cur.obs.draws, Ev.err.class, Expect(cur.obs).site>>) ELSE runlog
   /\ UNCHANGED <<scen, ffBuf, topInv, prev, runinfo>>
 
 \* --- shrinker -------------------------------------------------------------
@@ -241,8 +242,8 @@ V_CrossRun(failed) ==
      ELSE {})
     \* -rapid.seed=<printed seed>: the very first test case is the originally failing one
     \cup (IF runinfo.expect = "seed_prev"
-     THEN If(~(Len(runlog) > 0 /\ runlog[1][1] = "gen" /\ runlog[1][3] = prev.failDraws), "seed_replay_differs")
-          \cup If(~(rep.kind = prev.rep.kind /\ rep.valid = 0), "seed_replay_differs")
+     THEN If(~(Len(runlog) > 0 /\ runlog[1][1] = "gen" /\ runlog[1][3] = prev.failDraws /\ runlog[1][4] \in {"stop", "panic"}), "seed_replay_differs")
+          \cup If(~(rep.kind = prev.rep.kind /\ (rep.valid = 0 \/ rep.kind = "flaky")), "seed_replay_differs")
      ELSE {})
     \* same fixed seed, same property: the whole run is identical
     \cup (IF runinfo.expect = "same_run"
@@ -258,7 +259,7 @@ V_CrossRun(failed) ==
 
 RunEnd ==
   /\ Is("run.end") /\ Adv
-  /\ viol' = viol \cup V_RunEnd(Ev.failed, Ev.failnow) \cup V_CrossRun(Ev.failed)
+  /\ viol' = viol \cup (IF runinfo.entry = "makecheck" THEN V_RunEndNoTB(Ev.failed) ELSE V_RunEnd(Ev.failed, Ev.failnow)) \cup V_CrossRun(Ev.failed)
                   \cup If(Ev.how = "panic", "check_crashed")
   /\ prev' = [valid |-> TRUE, rep |-> rep, buf |-> buf, finalDraws |-> mon.finalObs.draws, failDraws |-> mon.failDraws,
               runlog |-> runlog, failed |-> Ev.failed, savedFile |-> mon.savedFile, fromFF |-> mon.fromFF]
